@@ -4,7 +4,7 @@ the implementation and on the reference machine under the same tape."""
 import copy
 import itertools
 
-from ..common import HarnessError, canon, load_impl, same_result
+from ..common import HANG, HarnessError, ImplHang, canon, cpu_watchdog, load_impl, same_result
 from ..engine.tape import Tape
 from ..ref import jumpvm
 
@@ -77,9 +77,12 @@ def run_impl(model, prefix, limit, presets=None, fetch=None, url_fn=None):
     if url_fn is not None:
         options['urlFn'] = url_fn
     try:
-        res = ('ok', canon(bs.execute_script(model, options)))
+        with cpu_watchdog():
+            res = ('ok', canon(bs.execute_script(model, options)))
     except bs.BareScriptRuntimeError as exc:
         res = ('raise', 'BareScriptRuntimeError', str(exc))
+    except ImplHang:
+        return {'result': HANG, 'logs': logs[:50], 'x': None, 'count': options.get('statementCount'), 'points': tape.points[:50]}
     except Exception as exc:  # pylint: disable=broad-exception-caught
         res = ('raise', type(exc).__name__, str(exc))
     if tape.error:
